@@ -158,6 +158,18 @@ def templates():
         out.append(("cmp-hole-and-%s" % hname, ("bool", "and", ("cmp", "eq", s, S()), ("cmp", "ne", u, h)), False))
         for f in ("contains", "startswith", "endswith"):
             out.append(("%s-hole-%s" % (f, hname), T.call(f, S(), h), False))
+    # EVERY function of the OData table x every argument position, the other arguments a field: whatever a
+    # dialect accepts today or starts to accept tomorrow (a refusal is fine) keeps the string inside one literal
+    from ..ref.functable import ARITY, RETURNS
+    for f in sorted(ARITY):
+        for nargs in range(max(1, ARITY[f][0]), ARITY[f][1] + 1):
+            for pos in range(nargs):
+                args = [S() if i == pos else (s if i == 0 else (T.I(1) if f == "substring" else u)) for i in range(nargs)]
+                c = T.call(f, *args)
+                t = c if RETURNS.get(f) == "bool" else ("cmp", "eq", c, T.ident("a") if RETURNS.get(f) in ("int", "float") else u)
+                out.append(("table-%s-%d-of-%d" % (f, pos, nargs), t, "embedded" if f in ("contains", "startswith", "endswith") and pos == 1 else False))
+                if RETURNS.get(f) == "bool":
+                    out.append(("table-%s-%d-of-%d-not" % (f, pos, nargs), ("un", "not", ("bool", "or", c, ("cmp", "eq", u, T.S("k")))), "embedded" if f in ("contains", "startswith", "endswith") and pos == 1 else False))
     for f in SFUNCS1:
         rhs = T.I(3) if f == "length" else u
         out.append((f + "-0", ("cmp", "eq", T.call(f, S()), rhs), False))
